@@ -90,7 +90,8 @@ impl Int {
             .parse::<i128>()
             .map_err(|e| JsError::from_str(&format! {"{:?}", e}))?;
         // no `abs()`: it overflows for i128::MIN
-        if x > u64::MAX as i128 || x < -(u64::MAX as i128) {
+        // the CBOR int range: -2^64 ..= 2^64 - 1
+        if x > u64::MAX as i128 || x < -(u64::MAX as i128) - 1 {
             return Err(JsError::from_str(&format!(
                 "{} out of bounds. Value (without sign) must fit within 4 bytes limit of {}",
                 x,
